@@ -141,6 +141,43 @@ func (x *inst) applyMgmt(ev string, f []string) {
 		}, true)
 		x.mustRefuse(ev, func() error { return x.srv.RemoveDiffDisk(ch[2]) }, true)
 		x.guard(ev, func() error { return x.srv.SetReplicaMode(m.Mode) })
+	case "RmGate":
+		// removal and revision-counter updates must be refused unless the replica is RW
+		ch := x.chainNames()
+		x.mustRefuse(ev, func() error {
+			ops, err := x.srv.PrepareRemoveDisk(ch[2])
+			if err == nil && len(ops) > 0 {
+				return nil
+			}
+			if err == nil {
+				return fmt.Errorf("no-op")
+			}
+			return err
+		}, true)
+		if len(x.viol) == 0 {
+			x.mustRefuse(ev, func() error { return x.srv.RemoveDiffDisk(ch[2]) }, true)
+		}
+		if len(x.viol) == 0 {
+			x.mustRefuse(ev, func() error { return x.srv.ReplaceDisk(ch[2], ch[1]) }, true)
+		}
+	case "Sync", "Unmap":
+		var err error
+		if f[0] == "Sync" {
+			err = x.guard(ev, func() error { _, e := x.srv.Sync(); return e })
+		} else {
+			err = x.guard(ev, func() error { _, e := x.srv.Unmap(0, Block); return e })
+		}
+		x.observe("%s -> %v", ev, err != nil)
+		if !m.Open && err == nil {
+			x.violate("io-on-closed", "io-on-closed:"+f[0], f[0]+" succeeded on a closed replica")
+		} else if m.Open && err != nil {
+			x.violate("io-failed", "io-failed:"+f[0], err.Error())
+		} else if m.Open && f[0] == "Unmap" {
+			// Unmap punches block 0 out of every file above the newest user snapshot: not part of any alphabet that reads data
+			m.Dirty = true
+		} else if m.Open {
+			m.Dirty = true
+		}
 	case "SnapDup":
 		name := m.Chain[len(m.Chain)-1].Name
 		x.mustRefuse(ev, func() error { return x.srv.Snapshot(name, true, created) }, true)
